@@ -102,9 +102,9 @@ var _ = reserr.ErrAccessDenied
 // NATS semantics (specMatchFrom: '*' is exactly one token, '>' is one or more trailing tokens).
 //@ func ResourcePattern.Match
 //@   requires predPatternInv(p.pattern, p.hasWild)
-//@   ensures[C12] p.pattern == "" ==> !result
-//@   ensures[C12] p.pattern != "" && !p.hasWild ==> result == (s == p.pattern)
-//@   ensures[C12] p.pattern != "" && p.hasWild && predNoEmptyTok(s) ==> result == specMatchFrom(p.pattern, s, 0, 0)
+//@   ensures[C04,C06,C12] p.pattern == "" ==> !result
+//@   ensures[C04,C06,C12] p.pattern != "" && !p.hasWild ==> result == (s == p.pattern)
+//@   ensures[C04,C06,C12] p.pattern != "" && p.hasWild && predNoEmptyTok(s) ==> result == specMatchFrom(p.pattern, s, 0, 0)
 //@   assigns nothing
 //@   safety[C15]
 //@   loop 1 invariant 0 <= pi && pi < plen && 0 <= si && si < slen
